@@ -342,12 +342,29 @@ func checkC20(c *core.Ctx, l *core.Ledger) {
 	}
 	if f := c.SSAFunc(c.LookupFunc("cmd/thriftbreak", "main")); f != nil {
 		fatal := false
+		exitWhy := ""
 		core.Instrs(f, func(in ssa.Instruction) {
-			if core.IsCallTo(in, "log", "Fatalf") || core.IsCallTo(in, "os", "Exit") {
+			if core.IsCallTo(in, "log", "Fatalf") || core.IsCallTo(in, "log", "Fatal") || core.IsCallTo(in, "log", "Fatalln") {
 				fatal = true
 			}
+			if core.IsCallTo(in, "os", "Exit") {
+				// the status must be a non-zero constant: a computed status (a count, say) is truncated to
+				// eight bits by the operating system and can come out as 0
+				arg := in.(ssa.CallInstruction).Common().Args[0]
+				if k, isK := core.ConstInt(arg); isK && k != 0 && k < 256 {
+					fatal = true
+				} else if isK && k == 0 {
+					// an explicit success exit is fine only where no error is pending; not judged here
+				} else {
+					exitWhy = "os.Exit is called with a computed status at " + c.Rel(in.Pos()) + ": the operating system keeps its low eight bits, so a failing run can exit 0"
+				}
+			}
 		})
-		l.Check(fatal && len(callsIn(f, "run")) == 1, "EXIT", "thriftbreak.main", c.Rel(f.Pos()), "an error from run ends the process through log.Fatalf (exit status 1)", "main does not turn an error from run into a failing exit")
+		why := "main does not turn an error from run into a failing exit"
+		if exitWhy != "" {
+			why = exitWhy
+		}
+		l.Check(fatal && exitWhy == "" && len(callsIn(f, "run")) == 1, "EXIT", "thriftbreak.main", c.Rel(f.Pos()), "an error from run ends the process through log.Fatalf or os.Exit with a constant non-zero status", why)
 	} else {
 		l.Unk("EXIT", "thriftbreak.main", "", "not found")
 	}
